@@ -64,6 +64,13 @@ def main():
             continue
         a = anchors(p)
         if mode == "record":
+            # line numbers mean something only for a patch that applies exactly where it says: otherwise the function found at
+            # those lines is a neighbour (this once overwrote every anchor of the patches that had drifted)
+            import subprocess
+            r = subprocess.run(["git", "-C", REPO, "apply", "--check", "-v", p], stdout=subprocess.PIPE, stderr=subprocess.STDOUT, text=True)
+            if r.returncode != 0 or "offset" in r.stdout:
+                print("NOT RECORDED %s: the patch does not apply exactly to the tree (run refresh_seeds.py first)" % os.path.basename(d))
+                continue
             m["anchors"] = a
             json.dump(m, open(mp, "w"), indent=1)
         else:
